@@ -79,9 +79,10 @@ impl PublicInput {
         );
         let denominator_pad = padded.pow_felt(&(public_memory_column_size - total_length));
 
+        // The page products are prover-supplied: a zero product must not reach the field inversion.
         Ok(numerator
-            .field_div(&NonZeroFelt::from_felt_unchecked(pages_product))
-            .field_div(&NonZeroFelt::from_felt_unchecked(denominator_pad)))
+            .field_div(&NonZeroFelt::try_from(pages_product)?)
+            .field_div(&NonZeroFelt::try_from(denominator_pad)?))
     }
     // Returns the product of all public memory cells.
     pub fn get_public_memory_product(&self, z: Felt, alpha: Felt) -> (Felt, Felt) {
